@@ -59,6 +59,55 @@ theorem uniqueItems_sound (v : GoVal) (h : uniqueItemsErr v = true) : specUnique
   cases v <;> simp [uniqueItemsErr] at h
   exact hasDeepDup_sound _ h
 
+/-- two scalars of the same Go type -/
+def sameScalarType : GoVal → GoVal → Bool
+  | .bool _, .bool _ => true
+  | .int b1 _, .int b2 _ => b1 == b2
+  | .uint b1 _, .uint b2 _ => b1 == b2
+  | .float b1 _, .float b2 _ => b1 == b2
+  | .str _, .str _ => true
+  | .named t1 _, .named t2 _ => t1 == t2
+  | _, _ => false
+
+theorem int_beq_cast (a b : Int) : (a == b) = ((a : Rat) == (b : Rat)) := by
+  by_cases h : a = b
+  · subst h; simp
+  · have : ¬ ((a : Rat) = (b : Rat)) := fun e => h (Rat.intCast_inj.mp e)
+    rw [beq_eq_false_iff_ne.mpr h, beq_eq_false_iff_ne.mpr this]
+
+theorem deepEq_eq_valEq_sameType (x y : GoVal) (h : sameScalarType x y = true) : deepEq x y = valEq x y := by
+  cases x <;> cases y <;> simp_all [sameScalarType, deepEq, valEq, numVal]
+  · exact int_beq_cast _ _
+  · rename_i v1 _ v2
+    rw [← int_beq_cast]
+    by_cases h : v1 = v2
+    · subst h; simp
+    · have : ¬ ((v1 : Int) = (v2 : Int)) := fun e => h (by exact_mod_cast e)
+      rw [beq_eq_false_iff_ne.mpr h, beq_eq_false_iff_ne.mpr this]
+
+theorem any_congr_mem' {α : Type} {l : List α} {p q : α → Bool} (h : ∀ a ∈ l, p a = q a) : l.any p = l.any q := by
+  induction l with
+  | nil => rfl
+  | cons a l ih =>
+    simp only [List.any_cons, h a List.mem_cons_self, ih (fun b hb => h b (List.mem_cons_of_mem _ hb))]
+
+theorem hasDeepDup_exact (xs : List GoVal) (h : ∀ x ∈ xs, ∀ y ∈ xs, sameScalarType x y = true) : hasDeepDup xs = specHasDup xs := by
+  induction xs with
+  | nil => rfl
+  | cons x xs ih =>
+    simp only [hasDeepDup, specHasDup]
+    rw [ih (fun a ha b hb => h a (List.mem_cons_of_mem _ ha) b (List.mem_cons_of_mem _ hb))]
+    congr 1
+    exact any_congr_mem' (fun y hy => deepEq_eq_valEq_sameType x y (h x List.mem_cons_self y (List.mem_cons_of_mem _ hy)))
+
+/-- **UniqueItems is exact on slices of scalars of one Go type** (strings, booleans, one integer or float width): it reports a
+    duplicate exactly when two elements are equal. The open deviation lies entirely in comparing values of *different* Go types. -/
+theorem uniqueItems_exact_homogeneous (e : String) (n : Bool) (xs : List GoVal)
+    (h : ∀ x ∈ xs, ∀ y ∈ xs, sameScalarType x y = true) :
+    uniqueItemsErr (.slice e n xs) = specUniqueItems (.slice e n xs) := by
+  simp only [uniqueItemsErr, specUniqueItems]
+  exact hasDeepDup_exact xs h
+
 /-- …but it misses numerically equal numbers of different Go types (known finding) -/
 theorem witness_uniqueItems_numeric_types :
     uniqueItemsErr (.slice "interface" false [.int 64 1, .float 64 1]) = false
